@@ -281,3 +281,35 @@ func (x *g) genPathOrderGadget() {
 	x.s.Services = append(x.s.Services, &spec.Service{Name: "pathorder", BasePath: "/pathorder", Methods: []*spec.Method{m}})
 	x.s.AddFeature("path-param", "path-array", "path-params-declared-in-another-order")
 }
+
+// genDocOnlyGadgetService adds (Opts.DocOnlyGadgets, openapi profile, every twelfth design) a
+// service with one method whose payload is a primitive carried by a request header: the generated client of such
+// a method does not compile (listed C01 finding), the documents are judged all the same — the header is required,
+// whatever the (absent) required list of the payload says.
+func (x *g) genDocOnlyGadgetService() {
+	if !x.o.DocOnlyGadgets || x.o.Profile != "openapi" {
+		return
+	}
+	// by design number, not by chance: every twelfth design (an openapi-profile slot of the profile cycle of C07)
+	n := 0
+	for _, ch := range x.s.ID {
+		if ch < '0' || ch > '9' {
+			return
+		}
+		n = n*10 + int(ch-'0')
+	}
+	if n%12 != 0 {
+		return
+	}
+	for _, sv := range x.s.Services {
+		if sv.Name == "rawhdr" {
+			return
+		}
+	}
+	m := &spec.Method{Name: "probe", NoSec: len(x.s.API.Security) > 0,
+		Payload: &spec.Attr{Type: &spec.Type{Kind: spec.String}},
+		Result:  &spec.Attr{Type: &spec.Type{Kind: spec.String}},
+		HTTP:    &spec.HTTP{Routes: []spec.Route{{Verb: "GET", Path: "/probe"}}, Headers: []spec.Loc{{Attr: "", Wire: "X-G-Raw"}}}}
+	x.s.Services = append(x.s.Services, &spec.Service{Name: "rawhdr", BasePath: "/rawhdr", Methods: []*spec.Method{m}})
+	x.s.AddFeature("payload-primitive-header", "doc-only-gadget-service")
+}
